@@ -129,7 +129,7 @@ package db
 // error returns included, and releases only what is in the list.
 //@ func DatabaseCollectionWithUser.documentUpdateFunc
 //@   modifies *
-//@   only-contracts assignSequence
+//@   only-contracts assignSequence, maxValueForSource
 //@   best-effort backupAncestorRevs#1
 //@   propagates validateExistingDoc#1 dynamic#1 prepareSyncFn#1 addAttachments#1 assignSequence#1 updateHLV#1 recalculateSyncFnForActiveRev#1 updateChannels#1 persistModifiedRevisionBodies#1
 //@   before[attachments-after-acceptance] call addAttachments#1 isNilErr(callres(dynamic, 1, 4)) && called(runSyncFn, 1) && isNilErr(callres(runSyncFn, 1, 5))
@@ -170,6 +170,12 @@ package db
 //@   ensures[sync-fn-reject-masked] called(runSyncFn, 1) && !isNilErr(callres(runSyncFn, 1, 5)) && called(ForceAPIForbiddenErrors, 1) && callres(ForceAPIForbiddenErrors, 1, 0) ==> err == box(ErrForbidden)
 //@   ensures[success-complete]      isNilErr(err) ==> called(runSyncFn, 1) && called(assignSequence, 1) && called(persistModifiedRevisionBodies, 1)
 //@   ensures[keeps-unused]          len(retUnusedSequences) >= len(unusedSequences)
+// (C10) the version generated for this write is above every value already recorded for our source in this document's vector
+//@   also C10: version-floor, floor-of-this-doc, generated-version-used, generated-when-needed
+//@   before[floor-of-this-doc]       call maxValueForSource#1 $0 == #doc.HLV && $1 == col.dbCtx.EncodedSourceID
+//@   before[version-floor]           call Now#1 #doc.HLV != nil ==> $1 >= #doc.HLV.maxValueForSource(col.dbCtx.EncodedSourceID)
+//@   before[generated-when-needed]   call updateHLV#1 (docUpdateEvent == NewVersion || docUpdateEvent == ExistingVersionWithUpdateToHLV) ==> called(Now, 1)
+//@   before[generated-version-used]  call updateHLV#1 $2 == #doc && $3 == docUpdateEvent && (called(Now, 1) ==> $5 == callres(Now, 1, 0))
 
 // ---- principals (db/users.go) ----
 // DatabaseContext.DeleteRole: load, reserve a sequence, delete. Every failure surfaces.
